@@ -441,6 +441,7 @@ func CfgC16() PropCfg {
 	w.CreateFixed, w.CreateBatch = 4, 12
 	w.PlaceBid, w.ModifyBid, w.UpdateAllowed, w.Block = 36, 10, 6, 24
 	w.PerturbPct = 4
+	w.SnipePct = 35
 	return PropCfg{ID: "C16", Weights: w, MinOps: 14, MaxOps: 60, DrivePct: 95,
 		New: func() Monitor { return &monC16{} },
 		NonTrivial: func(h *History) bool { return hasLabel(h, "c16:provisional-winner-not-in-final-settlement") },
